@@ -226,7 +226,7 @@ class ProblemGen:
         if ty[0] == "real":
             k = r.random()
             if k < 0.5:
-                return r.choice([["i", "1"], ["r", "1/2"], ["r", "3/2"], ["i", "0"], ["i", "2"]])
+                return r.choice([["i", "1"], ["r", "1/2"], ["r", "3/2"], ["i", "0"], ["i", "2"], ["r", "1/10"], ["r", "3/10"]])
             return self.num(params, scope, depth, real_ok=True)
         return self.term(ty[1], params, scope)
 
@@ -269,7 +269,7 @@ class ProblemGen:
             kind = r.choice(["increase", "decrease"])
         v = self.value_for(name, params, scope)
         if kind != "assign":
-            v = ["i", str(r.choice([1, 1, 2, 3]))] if ty[0] == "int" or r.random() < 0.5 else ["r", r.choice(["1/2", "3/2"])]
+            v = ["i", str(r.choice([1, 1, 2, 3]))] if ty[0] == "int" or r.random() < 0.5 else ["r", r.choice(["1/2", "3/2", "1/10", "1/5"])]
         c = ["b", "T"] if r.random() < 0.55 else self.cond(params, scope, 1)
         # the real Effect keeps only the forall variables that occur free in fluent/value/condition
         import sexp as _sx
@@ -334,9 +334,16 @@ class ProblemGen:
         # drop structurally rejected actions later (builder raises): callers catch
         goals = [self.cond([], (), r.choice([1, 2])) for _ in range(r.choice([0, 1, 1, 2]))]
         traj = []
-        if self.invariants and r.random() < 0.4:
+        if self.invariants and r.random() < 0.5:
             k = r.random()
-            if k < 0.4:
+            if k < 0.4 and getattr(self, "nested_invariants", True):
+                # invariants that read a fluent THROUGH another fluent (the ground fluent they constrain depends on the state)
+                if r.random() < 0.5:
+                    traj.append(["always", ["fl", self.FL["bq"], ["fl", self.FL["at"]]]])
+                else:
+                    traj.append(["always", ["forall", [["k", ["user", "S"]]],
+                                            ["le", ["fl", self.FL["xq"], ["fl", self.FL["own"], ["v", "k", ["user", "S"]]]], ["i", "2"]]]])
+            elif k < 0.4:
                 traj.append(["always", ["le", ["plus", ["fl", self.FL["x"]], ["fl", self.FL["xb"]]], ["i", str(r.choice([3, 5, 8]))]]])
             elif k < 0.7:
                 traj.append(["always", ["or", ["fl", self.FL["b0"]], ["not", ["fl", self.FL["b1"]]]]])
